@@ -115,6 +115,21 @@ func genOverlap(rt *rapid.T, oo overlapOpts) *overlapCase {
 					c.A = Op{Kind: "close", Scope: 2}
 					c.GateKind = kit.GateCloseEnter
 					c.GateN = rapid.SampledFrom([]int{1, 1, 2, 3}).Draw(rt, "fgaten")
+					if rapid.IntRange(0, 2).Draw(rt, "ftop") == 0 {
+						// A closes the top of the family and is held right after it has taken over the
+						// close of C, before C looks at its children: whatever P's Close has set in
+						// motion by then (a cancelled context wakes the watchers of the whole subtree)
+						// gets time to run
+						c.A = Op{Kind: "close", Scope: 1}
+						c.GateKind = kit.GateInternal
+						c.WantPoint = "scope.closeFromOwner.won"
+						c.GateN = 1
+						// B does nothing (the provider's Close would pick up and report what a watcher's
+						// Close stored, and the question is what P's own Close reports)
+						c.B = Op{Kind: "idle"}
+						c.run()
+						return c
+					}
 					switch rapid.IntRange(0, 3).Draw(rt, "fb") {
 					case 0:
 						c.B = Op{Kind: "pclose"}
@@ -750,7 +765,11 @@ type mcase struct {
 
 // genMulti builds and runs a program of 2-3 threads whose starts and releases
 // are interleaved in a generated order; one constructor invocation may fail.
-func genMulti(rt *rapid.T, gen kit.GenOpts) *mcase {
+func genMulti(rt *rapid.T, gen kit.GenOpts) *mcase { return genMultiWith(rt, gen, false) }
+
+// genMultiWith: with withClose one more thread closes the scope the others resolve in (parked
+// inside an instance's Close() or at a schedule point of the disposal), and nothing is made to fail.
+func genMultiWith(rt *rapid.T, gen kit.GenOpts, withClose bool) *mcase {
 	cfg := kit.GenConfig(rt, gen)
 	var faultKey [2]int
 	var flt kit.Fault
@@ -779,6 +798,29 @@ func genMulti(rt *rapid.T, gen kit.GenOpts) *mcase {
 	}
 	live := x.R.LiveScopes()
 	tag := rapid.SampledFrom(live).Draw(rt, "tag")
+	if withClose {
+		if len(live) > 1 {
+			tag = rapid.SampledFrom(live[1:]).Draw(rt, "tagNonRoot")
+		}
+		// services with optional dependencies on registered services are what a Close in progress can leave half-wired
+		var opt []kit.Ident
+		for _, id := range ctorIDs {
+			if ow, ok := x.M.Owner(id); ok {
+				for di, d := range x.M.Regs[ow.Reg].Deps {
+					if di > 0 && d.Optional && len(x.M.DepTargets(d)) > 0 {
+						opt = append(opt, id)
+						break
+					}
+				}
+			}
+		}
+		if len(opt) > 0 && rapid.IntRange(0, 3).Draw(rt, "optFirst") != 0 {
+			ctorIDs = opt
+		}
+		for i := rapid.IntRange(0, 3).Draw(rt, "warm"); i > 0; i-- {
+			x.exec(Op{Kind: "get", Scope: tag, Ident: rapid.SampledFrom(ids).Draw(rt, "warmId")})
+		}
+	}
 	first := Op{Kind: "get", Scope: tag, Ident: rapid.SampledFrom(ctorIDs).Draw(rt, "id0")}
 	nth := rapid.IntRange(2, 3).Draw(rt, "threads")
 	for i := 0; i < nth; i++ {
@@ -795,8 +837,17 @@ func genMulti(rt *rapid.T, gen kit.GenOpts) *mcase {
 		}
 		c.Threads = append(c.Threads, th)
 	}
+	if withClose {
+		th := &mthread{Op: Op{Kind: "close", Scope: tag}, done: make(chan struct{})}
+		if tag == 0 {
+			th.Op = Op{Kind: "pclose"}
+		}
+		th.GateKind = rapid.SampledFrom([]int{kit.GateCloseEnter, kit.GateCloseEnter, kit.GateInternal}).Draw(rt, "closeGate")
+		th.GateN = rapid.IntRange(1, 4).Draw(rt, "closeGateN")
+		c.Threads = append(c.Threads, th)
+	}
 	// fault plan: one invocation of the registration behind the first op (or another one) fails
-	if rapid.IntRange(0, 9).Draw(rt, "faulty") < 6 {
+	if !withClose && rapid.IntRange(0, 9).Draw(rt, "faulty") < 6 {
 		ow, _ := x.M.Owner(first.Ident)
 		reg := x.M.Regs[ow.Reg]
 		if rapid.IntRange(0, 9).Draw(rt, "faultOther") >= 7 {
@@ -884,13 +935,85 @@ func genMulti(rt *rapid.T, gen kit.GenOpts) *mcase {
 	}
 	x.W.SetGate(nil)
 	x.W.ClearFaults()
-	x.exec(Op{Kind: "pclose"})
+	if !x.R.PClosed {
+		x.exec(Op{Kind: "pclose"})
+	}
 	var td []string
 	for i, th := range c.Threads {
 		td = append(td, fmt.Sprintf("T%d: %s gate(kind %d #%d)", i, th.Op, th.GateKind, th.GateN))
 	}
 	c.Desc = fmt.Sprintf("config: %s\nthreads: %s\nactions: %v\nfault: %s", cfg, strings.Join(td, " | "), acts, c.Fault)
 	return c
+}
+
+// TestC13MultiSchedules: resolutions of one scoped service that overlap each other AND the Close
+// of their scope. Whoever gets a value gets a complete one.
+func TestC13MultiSchedules(t *testing.T) {
+	col := evid.New("C13", "multi-thread-schedules", "controlled programs of 3-4 threads: 2-3 resolutions (mostly of one scoped service with optional dependencies on registered services) in one scope and a Close of that scope, each thread optionally parked at the n-th constructor entry/exit, instance Close() or schedule point inside godi it reaches; starts and releases interleaved in a generated order; nothing is made to fail; oracle: no panic, no hang, every resolution returns the disposed error or a value whose construction completed and which was built with every registered dependency it declares (also the optional ones: the disposed error that an optional field swallows must not produce a half-initialised result that somebody receives), C10 exactly-once disposal; non-trivial = the closing thread and a resolving thread were both parked")
+	defer col.Flush()
+	rapid.Check(t, func(rt *rapid.T) {
+		g := kit.FullOpts()
+		g.OptionalBias = true
+		g.ChainBias = true
+		g.Lifetimes = []int{kit.Singleton, kit.Scoped, kit.Scoped, kit.Scoped, kit.Transient}
+		c := genMultiWith(rt, g, true)
+		if c.Desc == "" && c.Hang == "" {
+			col.Case(false, c.X.Cfg.String(), nil, "not-run")
+			return
+		}
+		x := c.X
+		var f *Failure
+		if c.Hang != "" {
+			f = fail("C13", "no-hang", "multi", "%s", c.Hang)
+		}
+		for _, o := range x.R.Obs {
+			if f != nil {
+				break
+			}
+			switch {
+			case o.Panic != nil:
+				f = fail("C13", "no-panic", "multi/"+o.Kind, "%s(s%d,%s) panicked: %v", o.Kind, o.Scope, o.Ident, o.Panic)
+			case o.Kind == "resolve" && o.Err != nil:
+				if _, registered := x.M.Owner(o.Ident); (registered || o.Ident.Group != "") && !kit.IsDisposed(o.Err) && !x.M.NilOutput(o.Ident) {
+					f = fail("C13", "documented-error", "multi/"+kit.Classify(o.Err), "get(s%d,%s) overlapping a Close failed with %v, want a value or the disposed error", o.Scope, o.Ident, firstLine(o.Err))
+				}
+			case o.Kind == "resolve":
+				for _, e := range o.Entries {
+					if e == nil && x.M.NilOutput(o.Ident) {
+						continue
+					}
+					if e == nil || (e.Inv != nil && (e.Inv.Outcome != 1 || e.BornSeq == 0 || e.BornSeq > o.EndSeq)) {
+						f = fail("C13", "complete-result", "multi/half-built", "get(s%d,%s) returned %v whose constructor had not completed", o.Scope, o.Ident, e)
+					}
+				}
+			}
+		}
+		if f == nil {
+			_, problems := x.observations()
+			vis := x.visibleInvs()
+			for _, pr := range problems {
+				if pr.Oracle == "arg-present" && pr.Inv != nil && vis[pr.Inv] {
+					f = fail("C13", "complete-result", "multi/half-wired", "handed out although constructed without a registered dependency: %s", pr.Msg)
+					break
+				}
+			}
+		}
+		if f == nil {
+			if g := x.checkC10(true); g != nil {
+				f = fail("C13", "lifetime-rules", g.Oracle+"/"+g.Sig, "%s", g.Msg)
+			}
+		}
+		closerParked := len(c.Threads) > 0 && c.Threads[len(c.Threads)-1].pk != nil && c.Threads[len(c.Threads)-1].pk.WasHit()
+		labels := []string{fmt.Sprintf("threads=%d", len(c.Threads)), fmt.Sprintf("parked=%d", c.Parked), fmt.Sprintf("closer-parked=%v", closerParked)}
+		if f != nil && isKnown(f) {
+			col.Excluded()
+			return
+		}
+		col.Case(closerParked && c.Parked >= 2, c.Desc, c.Desc, labels...)
+		if f != nil {
+			rt.Fatalf("VIOLATION %s\n%s", f, c.Desc)
+		}
+	})
 }
 
 func runMultiTest(t *testing.T, prop string) {
